@@ -2,7 +2,10 @@ package rules
 
 import (
 	_ "embed"
+	"encoding/json"
 	"strings"
+
+	"cdiverif/internal/ir"
 )
 
 // known_funcs.txt: the top-level functions of the repository at the time the
@@ -38,4 +41,21 @@ func KnownSigs() map[string]string {
 		}
 	}
 	return m
+}
+
+// known_symbols.json: types (with fields), functions and methods (with signatures and
+// parameter names), package-level variables and closures of the repository at the time
+// the rules were written (regenerate with `cdiverif -dump knownsymbols`); used by the
+// rename normalisation (ir/renames.go).
+//
+//go:embed known_symbols.json
+var knownSymbolsText string
+
+// KnownSymbols returns the recorded symbol table.
+func KnownSymbols() *ir.KnownSymbols {
+	ks := &ir.KnownSymbols{}
+	if err := json.Unmarshal([]byte(knownSymbolsText), ks); err != nil || len(ks.Pkgs) == 0 {
+		return nil
+	}
+	return ks
 }
